@@ -1213,4 +1213,65 @@ theorem addModule_spec {s : State} (h : Inv s) (op : Op) (hok : opOk s op = true
     simp only [(hpreg p hpar).2, if_true]
     rw [hpar] at h1; exact h1
 
+/-! ## Layer 7: the executable invariant printed by the driver follows from `Inv` -/
+
+theorem filter_length_one {α β : Type} [DecidableEq β] (f : α → β) :
+    ∀ (d : List α), (d.map f).Nodup → ∀ e ∈ d, (d.filter (fun e' => f e' = f e)).length = 1
+  | [], _, e, he => by simp at he
+  | a :: d, hn, e, he => by
+    rw [List.map_cons, List.nodup_cons] at hn
+    rcases List.mem_cons.1 he with rfl | he'
+    · have : d.filter (fun e' => decide (f e' = f e)) = [] := by
+        rw [List.filter_eq_nil_iff]
+        intro x hx hfx
+        simp only [decide_eq_true_eq] at hfx
+        exact hn.1 (hfx ▸ List.mem_map_of_mem hx)
+      simp [this]
+    · have hne : f a ≠ f e := fun h => hn.1 (h ▸ List.mem_map_of_mem he')
+      simp [hne, filter_length_one f d hn.2 e he']
+
+theorem filter_beq_length_one : ∀ (l : List Nat), l.Nodup → ∀ r ∈ l, (l.filter (· == r)).length = 1 := by
+  intro l hn r hr
+  have := filter_length_one (fun x : Nat => x) l (by simpa using hn) r hr
+  have hf : (fun x : Nat => x == r) = (fun e' => decide (e' = r)) := by
+    funext x; by_cases hx : x = r <;> simp [hx]
+  rw [hf]; exact this
+
+theorem Inv.toInvB {s : State} (h : Inv s) : invB s = true := by
+  have hobj : ∀ {i}, i < s.objs.length → ∃ o, s.objs[i]? = some o := fun hi => ⟨_, List.getElem?_eq_getElem hi⟩
+  simp only [invB, Bool.and_eq_true]
+  refine ⟨⟨⟨⟨⟨?_, ?_⟩, ?_⟩, ?_⟩, ?_⟩, ?_⟩
+  · simp only [keysUnique, List.all_eq_true, beq_iff_eq]
+    intro e he
+    exact filter_length_one Prod.fst s.all h.keys e he
+  · simp only [keysAreNames, List.all_eq_true, beq_iff_eq]
+    rintro ⟨k, i⟩ he
+    exact path_of_hasPath h.ord (h.names k i he)
+  · simp only [parentsRegistered, List.all_eq_true]
+    rintro ⟨k, i⟩ he
+    obtain ⟨o, ho⟩ := hobj (h.lt ⟨k, he⟩)
+    simp only [ho]
+    cases hp : o.parent with
+    | none =>
+      simp only [List.contains_iff_mem]
+      exact h.rootIn k i o.name he (sk_some.2 ⟨o, ho, rfl, hp⟩)
+    | some p =>
+      obtain ⟨hr, d, hd, hdg⟩ := h.parentReg k i o.name p he (sk_some.2 ⟨o, ho, rfl, hp⟩)
+      obtain ⟨po, hpo, rfl⟩ := ct_some.1 hd
+      simp [hpo, hdg, registered_iff.2 hr]
+  · simp only [rootsOk, List.all_eq_true, Bool.and_eq_true, beq_iff_eq]
+    intro r hr
+    obtain ⟨hreg, n, hn⟩ := h.roots r hr
+    obtain ⟨o, ho, _, hp⟩ := sk_some.1 hn
+    refine ⟨⟨registered_iff.2 hreg, by simp [ho, hp]⟩, filter_beq_length_one s.roots h.rootsNodup r hr⟩
+  · simp [pendingOk, h.pending]
+  · simp only [contentsOk, List.all_eq_true]
+    rintro ⟨k, q⟩ he
+    obtain ⟨qo, hqo⟩ := hobj (h.lt ⟨k, he⟩)
+    simp only [hqo, List.all_eq_true]
+    rintro ⟨n, c⟩ hm
+    obtain ⟨hr, hg⟩ := h.contents q qo.contents n c ⟨k, he⟩ (ct_some.2 ⟨qo, hqo, rfl⟩) hm (by simp)
+    obtain ⟨co, hco, h1, h2⟩ := sk_some.1 hg
+    simp [hco, h1, h2, registered_iff.2 hr]
+
 end ModTable
